@@ -51,6 +51,35 @@ CLAIMS = {
              "clauses, the coroutine returns only at or above the target and raises exactly on an error during "
              "the walk. Termination of polling is not claimed.",
         note=PYVC_TRUST + "; environment contract of the bus: valid AL state codes, arbitrary otherwise"),
+    "C20": dict(
+        engine="pyvc", category="proof", design_ref="DESIGN.md section 4 C20",
+        technique="contract-based deductive verification: Terminal.map_fmmu (asynccontextmanager) split at its "
+                  "yield into enter/exit contracts over the abstract view of the FMMU table, z3",
+        text="For FMMU tables of any length and contents, both directions, a failing bus, and normal, exceptional "
+             "and cancelled exits: the yielded index is a free slot of the table, only that slot changes, and "
+             "leaving the block frees exactly that slot even if other mappings changed theirs meanwhile (rely).",
+        note=PYVC_TRUST + "; rely: other mappings only change their own slots; bus writes may fail"),
+    "C22": dict(
+        engine="bpfvc", category="other", design_ref="DESIGN.md section 4 C22",
+        technique="contract-based deductive verification of the generated dispatcher: step contract on the bytes "
+                  "of EtherXDP().assemble() (all paths, symbolic packet/maps/program table), history clauses as "
+                  "z3 lemmas over the proved step relation",
+        text="Step contract (never drop; foreign frames untouched; resync / normal / stale cases with exact counter "
+             "and index updates; tail call or PASS with the identification ethertype) is proved for all inputs - "
+             "complete, the program is loop free. H1 follows directly. H3 is refuted by a history that replays on "
+             "the real bytes (recorded finding); the weaker bound (never four in a row) is checked for histories up "
+             "to a stated length only. H2 (liveness) is not claimed.",
+        note=BPFVC_TRUST + "; rate = 0; H3-weak bounded in history length; H2 not decided by this technique"),
+    "C21": dict(
+        engine="bpfvc+pyvc", category="other", design_ref="DESIGN.md section 4 C21",
+        technique="contract-based deductive verification of the generated group program: postcondition on the "
+                  "bytes of FastSyncGroup.assemble() for real layouts, all paths, symbolic frames and counters",
+        text="For five datagram layouts built by the real allocators (0-3 write datagrams) the group program is "
+             "proved for all frames, lengths and counters to re-enable exactly its write datagrams, clear their "
+             "working counters, count one error per wrong counter, and to do so only when the frame is long "
+             "enough and output is enabled; otherwise frame and counters are untouched. Bounded in the number of "
+             "write datagrams by the layouts checked.",
+        note=BPFVC_TRUST + "; the history clause (c) rests on C22's step contract; layouts are a finite sample"),
 }
 
 NA = {
